@@ -61,6 +61,16 @@ func (c *hctx) scanHeap() {
 	for i := 0; i < sig.Results().Len(); i++ {
 		note(sig.Results().At(i).Type())
 	}
+	if c.ctorNamed != nil {
+		if st, ok := c.ctorNamed.Underlying().(*types.Struct); ok {
+			for i := 0; i < st.NumFields(); i++ {
+				if ht := g.typeOf(st.Field(i).Type(), nil); ht != nil && ht.k == "hptr" && ht.st != nil && ht.st.wrapper != "" {
+					note(st.Field(i).Type())
+					fn.readsHeap, fn.writesHeap = true, true
+				}
+			}
+		}
+	}
 	lhs := map[ast.Expr]bool{}
 	ast.Inspect(fn.decl.Body, func(n ast.Node) bool {
 		switch v := n.(type) {
@@ -354,6 +364,18 @@ func (c *hctx) scanZeros() []string {
 		}
 		return true
 	})
+	if c.ctorNamed != nil {
+		if st, ok := c.ctorNamed.Underlying().(*types.Struct); ok {
+			for i := 0; i < st.NumFields(); i++ {
+				ht := g.typeOf(st.Field(i).Type(), nil)
+				if ht != nil && ht.k == "hptr" && ht.st != nil && ht.st.wrapper != "" {
+					add(c.zeroNeeds(c.cellRecordType(&hty{k: "hptr", name: ht.name, args: ht.args}))...)
+				} else {
+					add(c.zeroNeeds(ht)...)
+				}
+			}
+		}
+	}
 	// named results start at their zero values
 	sig := c.fn.obj.Type().(*types.Signature)
 	for i := 0; i < sig.Results().Len(); i++ {
@@ -923,6 +945,9 @@ type hclosure struct {
 func (c *hctx) callTranslated(cal *hfunc, fun ast.Expr, args []ast.Expr, ellipsis bool, clo *hclosure, at ast.Node, pre *[]hbind, want []string) ([]string, []*hty) {
 	if cal.state != 2 && cal != c.fn {
 		c.lostAt(at, "call of %s (not translated)", cal.spec)
+	}
+	if cal.ctor {
+		c.lostAt(at, "call of the constructor %s", cal.spec)
 	}
 	s := cal.name
 	fun = ast.Unparen(fun)
